@@ -118,6 +118,12 @@ int main(int argc, char** argv) {
             TFheGateBootstrappingParameterSet* ps = new TFheGateBootstrappingParameterSet(1 + rng.below(3), 1 + rng.below(2), lp, gp);
             TFheGateBootstrappingSecretKeySet* sk = new_random_gate_bootstrapping_secret_keyset(ps); cloud_report(sk, "custom"); delete_gate_bootstrapping_secret_keyset(sk);
         }
+        {   // key-switching layouts and noise levels at the extremes (t*basebit = 31 with one bit per digit; digits far below a large noise level; k = 2): whatever
+            // the layout, every row with a non-zero digit is a masked encryption
+            const double ext[3][4] = {{31, 1, ldexp(1., -15), 1}, {12, 2, 1e-3, 2}, {15, 2, ldexp(1., -15), 1}};
+            for (int q = 0; q < 3; q++) { LweParams* lp = new_LweParams(33 + 7 * q, ext[q][2], 0.01); TLweParams* tp = new_TLweParams(1024, (int)ext[q][3], 1e-9, 0.01); TGswParams* gp = new_TGswParams(2, 8, tp);
+                TFheGateBootstrappingParameterSet* ps = new TFheGateBootstrappingParameterSet((int)ext[q][0], (int)ext[q][1], lp, gp);
+                TFheGateBootstrappingSecretKeySet* sk = new_random_gate_bootstrapping_secret_keyset(ps); cloud_report(sk, "custom"); delete_gate_bootstrapping_secret_keyset(sk); } }
         {   // a larger odd-sized set (k = 2, one gadget level, one key-switching digit): section boundaries fall at unusual offsets
             LweParams* lp = new_LweParams(887, 1e-6, 0.01); TLweParams* tp = new_TLweParams(1024, 2, 1e-9, 0.01); TGswParams* gp = new_TGswParams(1, 8, tp);
             TFheGateBootstrappingParameterSet* ps = new TFheGateBootstrappingParameterSet(1, 1, lp, gp);
